@@ -3,9 +3,12 @@ package cluster
 import (
 	"bytes"
 	"fmt"
+	"os"
 	"path/filepath"
 	"strconv"
+	"strings"
 	"sync"
+	"syscall"
 	"time"
 
 	"github.com/openebs/jiva/rpc"
@@ -173,9 +176,38 @@ func RunClone(s *Scen, r *vk.Rand, a, b int, bin, base string) {
 		for time.Now().Before(deadline) && !cp.LogHas("Starting clone process", logFrom) {
 			time.Sleep(5 * time.Millisecond)
 		}
-		time.Sleep(time.Duration(r.Range(0, 300)) * time.Millisecond)
-		dst.Kill(cp, false)
-		time.Sleep(300 * time.Millisecond)
+		agentToo := (s.Case/100)%2 == 1 || r.Bool()
+		if agentToo {
+			// the whole pod dies while a snapshot's data file is arriving: wait (up to 3 s) until some of it is there
+			for i := 0; i < 3000; i++ {
+				if partlyReceived(cp.Dir) {
+					s.Cfg["killed"] = "while-a-data-file-was-arriving"
+					break
+				}
+				time.Sleep(time.Millisecond)
+			}
+		} else {
+			time.Sleep(time.Duration(r.Range(0, 300)) * time.Millisecond)
+		}
+		dst.Kill(cp, agentToo) // with or without its sync agent (and the file receiver that agent runs)
+		if (s.Case/100)%2 == 1 || r.Bool() {
+			// like a pod restart: the new controller has noticed the loss (its status poll fails) and has dropped the
+			// replica before the process is back
+			for i := 0; i < 1500; i++ {
+				if dst.C.TryLock() {
+					n := len(dst.C.ListReplicas())
+					dst.C.Unlock()
+					if n == 0 {
+						break
+					}
+				}
+				time.Sleep(10 * time.Millisecond)
+			}
+			s.Cfg["restart"] = "after-the-controller-dropped-it"
+		} else {
+			time.Sleep(300 * time.Millisecond)
+			s.Cfg["restart"] = "at-once"
+		}
 		dst.StartRep(cp)
 		s.Res.Count("clones_with_clone_killed", 1)
 	}
@@ -363,4 +395,20 @@ func headStr(l []string, n int) []string {
 		return l[:n]
 	}
 	return l
+}
+
+// partlyReceived tells whether some snapshot data file in dir has blocks allocated but fewer than its size needs.
+func partlyReceived(dir string) bool {
+	ents, _ := os.ReadDir(dir)
+	for _, e := range ents {
+		n := e.Name()
+		if !strings.HasPrefix(n, "volume-snap-") || !strings.HasSuffix(n, ".img") {
+			continue
+		}
+		var st syscall.Stat_t
+		if syscall.Stat(filepath.Join(dir, n), &st) == nil && st.Blocks >= 64 {
+			return true
+		}
+	}
+	return false
 }
